@@ -293,17 +293,17 @@ func gen(r *hv.Rng, i int, tier string) (string, hv.Val) {
 		switch r.Intn(10) {
 		case 0:
 			blk[r.Intn(len(blk))] ^= 1 << uint(r.Intn(8))
-			label += "+flip"
+			label += "+mut"
 		case 1:
 			blk = blk[:r.Intn(len(blk))]
-			label += "+trunc"
+			label += "+mut"
 		case 2:
 			p := r.Intn(len(blk) + 1)
 			blk = append(append(append([]byte(nil), blk[:p]...), byte(r.Intn(256))), blk[p:]...)
-			label += "+ins"
+			label += "+mut"
 		case 3:
 			blk[r.Intn(len(blk))] = byte(r.Intn(256))
-			label += "+set"
+			label += "+mut"
 		}
 	}
 	// split
@@ -315,7 +315,7 @@ func gen(r *hv.Rng, i int, tier string) (string, hv.Val) {
 		for _, c := range blk {
 			chunks = append(chunks, hv.B{c})
 		}
-		label += "/bytes"
+		label += "/split"
 	default:
 		rest := blk
 		for len(rest) > 0 {
